@@ -1408,12 +1408,10 @@ func (vm *VM) run() (Addr, bool) {
 						} else {
 							var chosen int
 							cas := reflect.SelectCase{Dir: reflect.SelectRecv, Chan: v}
-							vm.cases = append(vm.cases, cas, vm.env.doneCase)
-							chosen, u, ok = reflect.Select(vm.cases)
+							chosen, u, ok = vm.selectOrDone(cas)
 							if chosen == 1 {
 								return vm.stop()
 							}
-							vm.cases = vm.cases[:0]
 						}
 						if !ok {
 							break
@@ -1503,12 +1501,10 @@ func (vm *VM) run() (Addr, bool) {
 			} else {
 				var chosen int
 				cas := reflect.SelectCase{Dir: reflect.SelectRecv, Chan: ch}
-				vm.cases = append(vm.cases, cas, vm.env.doneCase)
-				chosen, v, vm.ok = reflect.Select(vm.cases)
+				chosen, v, vm.ok = vm.selectOrDone(cas)
 				if chosen == 1 {
 					return vm.stop()
 				}
-				vm.cases = vm.cases[:0]
 			}
 			if c != 0 {
 				vm.setFromReflectValue(c, v)
@@ -1659,12 +1655,10 @@ func (vm *VM) run() (Addr, bool) {
 				ch.Send(v)
 			} else {
 				cas := reflect.SelectCase{Dir: reflect.SelectSend, Chan: ch, Send: v}
-				vm.cases = append(vm.cases, cas, vm.env.doneCase)
-				chosen, _, _ := reflect.Select(vm.cases)
+				chosen, _, _ := vm.selectOrDone(cas)
 				if chosen == 1 {
 					return vm.stop()
 				}
-				vm.cases = vm.cases[:0]
 			}
 
 		// SetField
